@@ -82,3 +82,36 @@ A(V("c16-ttc-restore-order", "C16", "ttLib/ttCollection.py", "                re
 A(V("c16-classdef-unsorted", "C16", "ttLib/tables/otTables.py", "        if items:\n            items.sort()\n            last, lastName, lastCls = items[0]", "        if items:\n            last, lastName, lastCls = items[0]", "F12d"))
 A(V("c16-lang-set-join", "C16", FB, "        self.lookups_ = []\n", "        self.lookups_ = []\n        self._langs = \",\".join(set([\"a\", \"b\"]))\n", "F12", count=2))
 A(V("c16-benign-sorted-set", "C16", FB, "        self.lookups_ = []\n", "        self.lookups_ = []\n        self._langs = \",\".join(sorted(set([\"a\", \"b\"])))\n", None, expect=0, count=2))
+
+# ---- C07 -------------------------------------------------------------------
+A(V("c07-hmtx-unregistered", "C07", SUB, '@_add_method(ttLib.getTableClass("hmtx"))\ndef subset_glyphs(self, s):', 'def _hmtx_subset_glyphs(self, s):', "F20-sub"))
+A(V("c07-gvar-nosubset", "C07", SUB, '        "cvar",\n        "STAT",\n    ]', '        "cvar",\n        "STAT",\n        "gvar",\n    ]', "F20-sub"))
+A(V("c07-kern-nosubset", "C07", SUB, '        "cvar",\n        "STAT",\n    ]', '        "cvar",\n        "STAT",\n        "kern",\n    ]', "F20-sub"))
+A(V("c07-varidx-dropped", "C07", SUB, "    varidx_map = store.subset_varidxes(usedVarIdxes)\n\n    # Map.\n", "    store.subset_varidxes(usedVarIdxes)\n    varidx_map = {}\n\n    # Map.\n", "F19"))
+A(V("c07-gpos-remap-forgotten", "C07", SUB, "    table.remap_device_varidxes(varidx_map)\n    if \"GPOS\" in font:\n        font[\"GPOS\"].table.remap_device_varidxes(varidx_map)", "    table.remap_device_varidxes(varidx_map)", "F19"))
+A(V("c07-setglyphorder-early", "C07", SUB, "    def _subset_glyphs(self, font):\n        self.used_mark_sets = []\n", "    def _subset_glyphs(self, font):\n        self.used_mark_sets = []\n        font.setGlyphOrder(self.new_glyph_order)\n", "SUB-order"))
+A(V("c07-lookup-handler-lost", "C07", SUB, "@_add_method(otTables.ReverseChainSingleSubst)\ndef closure_glyphs(self, s, cur_glyphs):", "def _rcss_closure_glyphs(self, s, cur_glyphs):", "F20-lookups"))
+A(V("c07-fallthrough-keeps", "C07", SUB, "                log.warning(\"%s NOT subset; don't know how to subset; dropped\", tag)\n                del font[tag]", "                log.warning(\"%s NOT subset; don't know how to subset; dropped\", tag)", "SUB-order"))
+
+# ---- C08 -------------------------------------------------------------------
+INS = "varLib/instancer/__init__.py"
+A(V("c08-hvar-call-removed", "C08", INS, "    if \"HVAR\" in varfont:\n        instantiateHVAR(varfont, limits)\n", "", "F20-inst"))
+A(V("c08-mvar-wrong-guard", "C08", INS, "    if \"MVAR\" in varfont:\n        instantiateMVAR(varfont, limits)", "    if \"HVAR\" in varfont:\n        instantiateMVAR(varfont, limits)", "F20-inst"))
+A(V("c08-fvar-before-tables", "C08", INS, "    if not inplace:\n        varfont = deepcopy(varfont)\n", "    if not inplace:\n        varfont = deepcopy(varfont)\n    instantiateFvar(varfont, axisLimits)\n", "INST-order"))
+A(V("c08-optimize-dropped", "C08", INS, "        varIndexMapping = varStore.optimize()\n        gdef.remap_device_varidxes(varIndexMapping)", "        varStore.optimize()\n        varIndexMapping = {}\n        gdef.remap_device_varidxes(varIndexMapping)", "F19"))
+A(V("c08-gpos-remap-lost", "C08", INS, "        gdef.remap_device_varidxes(varIndexMapping)\n        if \"GPOS\" in varfont:\n            varfont[\"GPOS\"].table.remap_device_varidxes(varIndexMapping)", "        gdef.remap_device_varidxes(varIndexMapping)", "F19"))
+
+# ---- C17 -------------------------------------------------------------------
+RG = "ttLib/reorderGlyphs.py"
+SU = "ttLib/scaleUpem.py"
+A(V("c17-rcss-parallel-lost", "C17", RG, '        ReorderCoverage(parallel_list_attr="Substitute"),', "        ReorderCoverage(),", "F20-reorder"))
+A(V("c17-markarray-typo", "C17", RG, 'coverage_attr="Mark2Coverage", parallel_list_attr="Mark2Array.Mark2Record"', 'coverage_attr="Mark2Coverage", parallel_list_attr="Mark2Array.MarkRecord"', "F20-reorder"))
+A(V("c17-pairset-key", "C17", RG, '(ot.PairSet, None): [ReorderList("PairValueRecord", key="SecondGlyph")],', '(ot.PairSet, None): [ReorderList("PairValueRecord", key="Value1")],', "F20-reorder"))
+A(V("c17-container-lost", "C17", RG, 'coverage_containers = {"GDEF", "GPOS", "GSUB", "JSTF", "MATH"}', 'coverage_containers = {"GDEF", "GPOS", "GSUB", "JSTF"}', "F20-reorder"))
+A(V("c17-setorder-first", "C17", RG, "    font.ensureDecompiled()\n    not_loaded", "    font.setGlyphOrder(new_glyph_order)\n    font.ensureDecompiled()\n    not_loaded", "REORDER-flow", ))
+A(V("c17-os2-field-lost", "C17", SU, '                "sTypoLineGap",\n', "", "F20-scale"))
+A(V("c17-hhea-typo", "C17", SU, '                "advanceWidthMax",\n', '                "advanceWidthMaximum",\n', "F20-scale"))
+A(V("c17-anchor-lost", "C17", SU, '        (otTables.Anchor, ("XCoordinate", "YCoordinate")),  # GPOS\n', '        (otTables.Anchor, ("XCoordinate",)),  # GPOS\n', "F20-scale"))
+A(V("c17-vsindex-scaled", "C17", SU, '                if op == "vsindex":\n                    continue\n', "", "SCALE-shape"))
+A(V("c17-fontmatrix-mult", "C17", SU, "            topDict.FontMatrix[i] /= visitor.scaleFactor", "            topDict.FontMatrix[i] *= visitor.scaleFactor", "SCALE-shape"))
+A(V("c17-benign-rule-order", "C17", RG, '    (ot.SinglePos, 1): [ReorderCoverage()],\n    (ot.SinglePos, 2): [ReorderCoverage(parallel_list_attr="Value")],', '    (ot.SinglePos, 2): [ReorderCoverage(parallel_list_attr="Value")],\n    (ot.SinglePos, 1): [ReorderCoverage()],', None, expect=0))
